@@ -201,6 +201,8 @@ pub fn mut_step(d: &mut Driver, ch: &mut dyn Chooser, i: usize, full: bool) {
                     d.count("reclaim_probes");
                     if ev.byte_allocs != 0 {
                         d.viol("C08", "reserve-allocates-on-sole-empty", &format!("reserve({n}) on an empty handle that is alone on a {alloc}-byte allocation allocated ({rname})"));
+                    } else if s.cap() - s.len() < n {
+                        d.viol("C08", "reserve-reclaimed-less-than-asked", &format!("reserve({n}) on an empty handle alone on a {alloc}-byte allocation did not allocate but capacity() is only {} ({rname})", s.cap()));
                     }
                 }
                 d.cell(format!("M|{rname}|reserve|{ca}|{outcome}"));
@@ -242,6 +244,8 @@ pub fn mut_step(d: &mut Driver, ch: &mut dyn Chooser, i: usize, full: bool) {
                     d.count("reclaim_probes");
                     if !ok {
                         d.viol("C08", "try_reclaim-false-on-sole-empty", &format!("try_reclaim({n}) false on an empty handle alone on a {alloc}-byte allocation ({rname})"));
+                    } else if s.cap() - s.len() < n {
+                        d.viol("C08", "try_reclaim-true-without-the-capacity", &format!("try_reclaim({n}) answered true on an empty handle alone on a {alloc}-byte allocation but capacity() is {} ({rname})", s.cap()));
                     }
                 }
                 d.cell(format!("M|{rname}|try_reclaim|{ca}|{ok}"));
